@@ -143,6 +143,63 @@ def rule_r3(rep, program: Program):
     return r
 
 
+def rule_r5(rep, program: Program):
+    import ast
+
+    from ..effects import user_function_attrs
+    from ..model import is_self_attr, norm
+
+    r = rep.rule("R5", "user function wiring: method X evaluates self._X, which the constructor binds to the parameter X (derivative fallbacks differentiate the matching base function)", floor=9)
+    seen = set()
+    for k in c09.system_classes(program):
+        uf = user_function_attrs(k)
+        for c in k.mro:
+            for name, f in c.methods.items():
+                if name == "__init__" or f.qualname in seen:
+                    continue
+                calls = [n for n in ast.walk(f.node) if isinstance(n, ast.Call) and is_self_attr(n.func) and n.func.attr in uf]
+                if not calls:
+                    continue
+                seen.add(f.qualname)
+                attr = calls[0].func.attr
+                bind = uf[attr]
+                bargs = [norm(a) for a in bind.args]
+                r.inst({"method": f.qualname, "calls": f"self.{attr}", "bound by": f"{norm(bind.func)}({', '.join(bargs)[:60]})"})
+                if attr != f"_{name}":
+                    r.violate(PROP, f"{f.qualname}:calls:self.{attr}", f"{f.qualname} evaluates self.{attr} instead of self._{name}: it returns a different model function than its name says", node=f.node, file=f.file)
+                # argument of the call is the position
+                if not (calls[0].args and norm(calls[0].args[0]).endswith(".pos")):
+                    r.violate(PROP, f"{f.qualname}:argument:{norm(calls[0].args[0]) if calls[0].args else None}", "the user model function is not evaluated at the state's position", node=calls[0], file=f.file)
+    # constructor bindings: attribute _p <- parameter p (wrap_function) / (p, base, op, 'p') (autodiff_fallback)
+    for k in c09.system_classes(program):
+        for attr, call in user_function_attrs(k).items():
+            fn = norm(call.func)
+            args = [norm(a) for a in call.args]
+            key = f"{k.name}:{attr}"
+            ok = bool(args) and args[0] == attr[1:]
+            if ok and fn == "autodiff_fallback":
+                ok = len(args) >= 3
+                if ok:
+                    base = args[2].strip("'\"").split("_")[0]
+                    pref = {"grad": "grad", "jacobian": "jacob", "hessian": "hess", "mhp": "mhp", "mtp": "mtp", "vjp": "vjp"}.get(base, base)
+                    ok = attr[1:].startswith(pref)
+            if (k.name, attr) in seen:
+                continue
+            seen.add((k.name, attr))
+            r.inst({"class": k.name, "binding": f"self.{attr} = {fn}({', '.join(args)[:70]})", "ok": bool(ok)})
+            if not ok:
+                r.violate(PROP, f"{key}:binding:{args[:1]}", f"{k.name}: self.{attr} is bound to `{fn}({', '.join(args)[:80]})`, which is not the constructor argument of the same name / the matching differential operator", node=call, file=str(k.module.path))
+    # de-duplicate
+    seen2, uniq = set(), []
+    for fd in r.findings:
+        kk = fd.key.split(":", 1)[1] if fd.key.split(":")[0] in program.classes else fd.key
+        if kk not in seen2:
+            seen2.add(kk)
+            uniq.append(fd)
+    r.findings = uniq
+    return r
+
+
 def run(rep, program: Program, tier: str) -> None:
     rep.explanation = (
         "Every Hamiltonian method of every concrete system class is resolved under the class's MRO "
@@ -159,3 +216,4 @@ def run(rep, program: Program, tier: str) -> None:
     rule_r2(rep, program)
     rule_r3(rep, program)
     c18.rule_r3(rep, program, prop=PROP, rule="R4")
+    rule_r5(rep, program)
